@@ -31,7 +31,7 @@ import common as C
 
 RE_CASE = re.compile(r'^<<"CASE", "(.*)">>$')
 NSHARD = 4
-SHAPE_KEYS = ("kind", "tags", "content", "nids", "nauthors", "nkinds", "opt", "size", "tsize", "fits", "tagsfit", "why", "owned")
+SHAPE_KEYS = ("kind", "tags", "content", "nids", "nauthors", "nkinds", "opt", "size", "tsize", "fits", "tagsfit", "why", "owned", "kprobes")
 
 
 def generate(tier, wd):
